@@ -465,99 +465,154 @@ var rR15m = RuleRef{Name: "R15m", Doc: "the four *Multi lock helpers (directly o
 		})
 		return found
 	}
-	for _, b := range common.Blocks {
-		for _, in := range b.Instrs {
-			ret, isRet := in.(*ssa.Return)
-			if !isRet || len(ret.Results) == 0 {
-				continue
-			}
-			rv := ret.Results[0]
-			if isNilConst(rv) {
-				continue // error path: callers lock nothing
-			}
-			found := false
-			for _, b2 := range common.Blocks {
-				for _, in2 := range b2.Instrs {
-					cl, isC := in2.(*ssa.Call)
-					if !isC {
-						continue
+	// analyse: the slice returned by fn is sorted / filled from map keys on every non-nil return; a slice obtained
+	// from a first-party helper inherits what holds for the helper's own returns.
+	var analyse func(fn *ssa.Function, depth int) (bool, bool, string)
+	analyse = func(fn *ssa.Function, depth int) (sorted bool, dedup bool, why string) {
+		sorted, dedup = true, false
+		allDedup, nRet := true, 0
+		if fn == nil || fn.Blocks == nil || depth > 2 {
+			return false, false, "the slice comes from a function that cannot be analysed"
+		}
+		helperOf := func(v ssa.Value) *ssa.Function {
+			for {
+				switch x := v.(type) {
+				case *ssa.Extract:
+					v = x.Tuple
+					continue
+				case *ssa.Call:
+					if _, isApp := isAppend(x); isApp {
+						return nil
 					}
-					cf := callee(cl)
-					if cf == nil || cf.Pkg == nil {
-						continue
+					if cf := callee(x); cf != nil && firstParty(cf) && cf.Blocks != nil {
+						return cf
 					}
-					isSort := (cf.Pkg.Pkg.Path() == "sort" && cf.Name() == "Ints") || (cf.Pkg.Pkg.Path() == "slices" && cf.Name() == "Sort")
-					if !isSort {
-						if cf.Pkg.Pkg.Path() == "sort" || cf.Pkg.Pkg.Path() == "slices" {
-							sorted, why = false, "ordering construct "+cf.String()+" is not recognised (undecided)"
+				}
+				return nil
+			}
+		}
+		for _, b := range fn.Blocks {
+			for _, in := range b.Instrs {
+				ret, isRet := in.(*ssa.Return)
+				if !isRet || len(ret.Results) == 0 {
+					continue
+				}
+				rv := ret.Results[0]
+				if isNilConst(rv) {
+					continue // error path: callers lock nothing
+				}
+				if _, isSl := rv.Type().Underlying().(*types.Slice); !isSl {
+					continue
+				}
+				found := false
+				for _, b2 := range fn.Blocks {
+					for _, in2 := range b2.Instrs {
+						cl, isC := in2.(*ssa.Call)
+						if !isC {
+							continue
 						}
-						continue
+						cf := callee(cl)
+						if cf == nil || cf.Pkg == nil {
+							continue
+						}
+						isSort := (cf.Pkg.Pkg.Path() == "sort" && cf.Name() == "Ints") || (cf.Pkg.Pkg.Path() == "slices" && cf.Name() == "Sort")
+						if !isSort {
+							if cf.Pkg.Pkg.Path() == "sort" || cf.Pkg.Pkg.Path() == "slices" {
+								sorted, why = false, "ordering construct "+cf.String()+" is not recognised (undecided)"
+							}
+							continue
+						}
+						if cl.Call.Args[0] == rv && b2.Dominates(b) {
+							found = true
+						}
 					}
-					if cl.Call.Args[0] == rv && b2.Dominates(b) {
+				}
+				var hs, hd bool
+				h := helperOf(rv)
+				if h != nil {
+					hs, hd, _ = analyse(h, depth+1)
+					if hs {
 						found = true
 					}
 				}
-			}
-			if !found {
-				sorted = false
-				if why == "" {
-					why = "a non-nil return is not dominated by sort.Ints on the returned slice"
-				}
-			}
-			// de-duplication: every element of the returned slice comes from ranging over a map
-			elemsOK, any := true, false
-			seen := map[ssa.Value]bool{}
-			var walk func(v ssa.Value)
-			walk = func(v ssa.Value) {
-				if seen[v] {
-					return
-				}
-				seen[v] = true
-				switch x := v.(type) {
-				case *ssa.Phi:
-					for _, e := range x.Edges {
-						walk(e)
+				if !found {
+					sorted = false
+					if why == "" {
+						why = "a non-nil return is not dominated by sort.Ints on the returned slice"
 					}
-				case *ssa.MakeSlice:
-					for _, r := range *x.Referrers() {
-						if ia, ok := r.(*ssa.IndexAddr); ok {
-							for _, rr := range *ia.Referrers() {
-								if st, ok := rr.(*ssa.Store); ok && st.Addr == ia {
-									any = true
-									if !fromMapRange(st.Val) {
-										elemsOK = false
+				}
+				// de-duplication: every element of the returned slice comes from ranging over a map
+				elemsOK, any := true, false
+				seen := map[ssa.Value]bool{}
+				var walk func(v ssa.Value)
+				walk = func(v ssa.Value) {
+					if seen[v] {
+						return
+					}
+					seen[v] = true
+					switch x := v.(type) {
+					case *ssa.Phi:
+						for _, e := range x.Edges {
+							walk(e)
+						}
+					case *ssa.MakeSlice:
+						for _, r := range *x.Referrers() {
+							if ia, ok := r.(*ssa.IndexAddr); ok {
+								for _, rr := range *ia.Referrers() {
+									if st, ok := rr.(*ssa.Store); ok && st.Addr == ia {
+										any = true
+										if !fromMapRange(st.Val) {
+											elemsOK = false
+										}
 									}
 								}
 							}
 						}
-					}
-				case *ssa.Slice:
-					walk(x.X)
-				case *ssa.Alloc:
-				case *ssa.Call:
-					if ap, ok := isAppend(x); ok {
-						walk(ap.Call.Args[0])
-						if elems, ok := sliceLiteralElems(ap.Call.Args[1]); ok {
-							for _, e := range elems {
-								any = true
-								if !fromMapRange(e) {
-									elemsOK = false
+					case *ssa.Slice:
+						walk(x.X)
+					case *ssa.Alloc:
+					case *ssa.Extract:
+						walk(x.Tuple)
+					case *ssa.Call:
+						if ap, ok := isAppend(x); ok {
+							walk(ap.Call.Args[0])
+							if elems, ok := sliceLiteralElems(ap.Call.Args[1]); ok {
+								for _, e := range elems {
+									any = true
+									if !fromMapRange(e) {
+										elemsOK = false
+									}
 								}
+							} else {
+								elemsOK = false
 							}
-						} else {
-							elemsOK = false
+							return
 						}
-						return
+						if helperOf(x) != nil {
+							_, d2, _ := analyse(helperOf(x), depth+1)
+							any = true
+							if !d2 {
+								elemsOK = false
+							}
+							return
+						}
+						elemsOK = false
+					default:
+						elemsOK = false
 					}
-					elemsOK = false
-				default:
-					elemsOK = false
+				}
+				walk(rv)
+				_ = hd
+				nRet++
+				if !(elemsOK && any) {
+					allDedup = false
 				}
 			}
-			walk(rv)
-			dedup = elemsOK && any
 		}
+		dedup = allDedup && nRet > 0
+		return
 	}
+	sorted, dedup, why = analyse(common, 0)
 	c.Add("R15m", fnName(common), "returned stripe positions are sorted ascending on every non-nil return", common.Pos(), sorted, why)
 	c.Add("R15m", fnName(common), "returned stripe positions are de-duplicated (filled from the keys of a map)", common.Pos(), dedup, "the slice elements must come from a range over a map keyed by position")
 	// stripe position is a pure function of the key: GetKeyPos = HashKey(key) % len(l.locks)
